@@ -210,6 +210,47 @@ def iv_field_writers(chk):
     chk.floor('IV field writers', nw, 7)
 
 
+def ephemeral_key_fully_drawn(chk):
+    """"Ephemeral EC keys differ across connections": the ECDHE private key is order-length bytes from the engine DRBG (then masked below
+    the order).  The length handed to br_hmac_drbg_generate must be the curve order length just obtained from impl->order(curve,
+    &olen) - the local that call wrote - not some other quantity (a stale context field, a constant): bytes not drawn keep their old
+    value, and with a zeroed context the whole key is a constant.  Structural rule in the server's do_ecdhe_part1 and the client's
+    make_pms_ecdh."""
+    R = 'ephemeral-key-fully-drawn'
+    n = 0
+    for src, fn in (('src/ssl/ssl_hs_server.c', 'do_ecdhe_part1'), ('src/ssl/ssl_hs_client.c', 'make_pms_ecdh')):
+        u = build.load_unit(src)
+        F = next((irf.Func(u, f) for f in u['functions'] if f['name'] == fn and f.get('blocks')), None)
+        if F is None:
+            raise AnalysisBroken('%s vanished from %s' % (fn, src))
+        # the out-parameter of the order() call: an indirect call (i32, i64*) returning i8*
+        outs = set()
+        for c in F.calls():
+            if c.get('callee') is None and len(c['ops']) == 2 and c.get('ty') == 'i8*':
+                b, o = F.addr_of(c['ops'][1])
+                if b['k'] == 'i' and F.insts[b['v']]['op'] == 'alloca' and o == 0:
+                    outs.add(b['v'])
+        gens = F.calls('br_hmac_drbg_generate')
+        if not outs or not gens:
+            raise AnalysisBroken('%s: order() call / DRBG draw not identified' % fn)
+        for g in gens:
+            n += 1
+            ln = g['ops'][2]
+            while ln['k'] == 'i' and F.insts[ln['v']]['op'] in ('zext', 'trunc', 'sext'):
+                ln = F.insts[ln['v']]['ops'][0]
+            okk = False
+            if ln['k'] == 'i' and F.insts[ln['v']]['op'] == 'load':
+                b, o = F.addr_of(F.insts[ln['v']]['ops'][0])
+                okk = b['k'] == 'i' and b['v'] in outs and o == 0
+            inst = '%s: the ephemeral private key is drawn over the full order length' % fn
+            if okk:
+                chk.ok(R, inst, F.where(g))
+            else:
+                chk.violation(R, inst, F.where(g), 'the length of the DRBG draw is not the order length returned by order(): key bytes keep stale / constant values',
+                              key='%s %s' % (R, fn))
+    chk.floor('ephemeral key draws', n, 2)
+
+
 def seed_all_bytes(chk):
     """"different seeds give different streams": every byte of an injected seed must reach the DRBG.  Decided part: with the seed
     length fixed to K, a single (non-looping) DRBG update whose length folds to a constant below K necessarily drops seed bytes."""
@@ -405,6 +446,7 @@ def run(tier):
     seeder_rules(chk)
     seed_all_bytes(chk)
     iv_field_writers(chk)
+    ephemeral_key_fully_drawn(chk)
     seq_rules(chk)
     seq_encoding(chk)
     return chk.finish()
